@@ -796,8 +796,11 @@ package fpgo
 //@   invariant extended: forallv(x, _visited(x) && SUBTRACTSI(x) ==> isptr(SSI(result)[x], StreamForInterfaceDef) && STI(result, x) != nil && fresh(STI(result, x)) && len(*STI(result, x)) == ite(untyped(SSI(streamSetSelf)[x]), 0, len(*STI(streamSetSelf, x))) + len(*STI(input, x)) && forall(j, 0, len(*STI(input, x)), (*STI(result, x))[ite(untyped(SSI(streamSetSelf)[x]), 0, len(*STI(streamSetSelf, x))) + j] == (*STI(input, x))[j]) && (!untyped(SSI(streamSetSelf)[x]) ==> forall(j, 0, len(*STI(streamSetSelf, x)), (*STI(result, x))[j] == (*STI(streamSetSelf, x))[j])))
 //@   invariant others-shared: forallv(x, has(SSI(result), x) && !(_visited(x) && SUBTRACTSI(x)) ==> SSI(result)[x] == ite(has(SSI(input), x), SSI(input)[x], SSI(streamSetSelf)[x]))
 
+//@ define SSI_ORDERED(res, x) = forall(j, 0, len(*STI(res, x)), 0 <= gk[x][j] && gk[x][j] < len(*STI(streamSetSelf, x)) && (*STI(res, x))[j] == (*STI(streamSetSelf, x))[gk[x][j]]) && forall(j, 0, len(*STI(res, x)), forall(l, 0, j, gk[x][l] < gk[x][j]))
 //@ func (StreamSetForInterfaceDef).Intersection
 //@   prop C04,C05
+//@   ghost gk (Array Val (Array Int Int))
+//@   ensures order-follows-the-receiver: input != nil && len(SSI(input)) > 0 ==> forallv(x, has(SSI(r0), x) && SUBTRACTSI(x) && !untyped(SSI(streamSetSelf)[x]) ==> SSI_ORDERED(r0, x))
 //@   requires streamSetSelf != nil && SSI_WF(streamSetSelf) && (input != nil ==> SSI_WF(input))
 //@   ensures empty-operand: input == nil || len(SSI(input)) == 0 ==> r0 != nil && fresh(r0) && len(SSI(r0)) == 0
 //@   ensures fresh-result: input != nil && len(SSI(input)) > 0 ==> r0 != nil && fresh(r0) && SSI(r0) != nil && fresh(SSI(r0))
@@ -805,6 +808,8 @@ package fpgo
 //@   ensures intersected: input != nil && len(SSI(input)) > 0 ==> forallv(x, has(SSI(r0), x) && SUBTRACTSI(x) ==> isptr(SSI(r0)[x], StreamForInterfaceDef) && STI(r0, x) != nil && fresh(STI(r0, x)) && (untyped(SSI(streamSetSelf)[x]) ==> len(*STI(r0, x)) == 0) && (!untyped(SSI(streamSetSelf)[x]) ==> forall(j, 0, len(*STI(r0, x)), CONTAINS(*STI(streamSetSelf, x), (*STI(r0, x))[j]) && CONTAINS(*STI(input, x), (*STI(r0, x))[j]))))
 //@   ensures others-shared: input != nil && len(SSI(input)) > 0 ==> forallv(x, has(SSI(r0), x) && !SUBTRACTSI(x) ==> SSI(r0)[x] == SSI(streamSetSelf)[x])
 //@ func (StreamSetForInterfaceDef).Intersection loop 0
+//@   ghostset gk = store(gk, k, Intersection_g)
+//@   invariant order-follows-the-receiver: forallv(x, has(SSI(result), x) && _visited(x) && SUBTRACTSI(x) && !untyped(SSI(streamSetSelf)[x]) ==> SSI_ORDERED(result, x))
 //@   invariant result: result != nil && fresh(result) && SSI(result) != nil && fresh(SSI(result)) && SSI(result) == _m
 //@   invariant keys-of-both: forallv(x, has(SSI(result), x) == (has(SSI(streamSetSelf), x) && has(SSI(input), x)))
 //@   invariant intersected: forallv(x, has(SSI(result), x) && _visited(x) && SUBTRACTSI(x) ==> isptr(SSI(result)[x], StreamForInterfaceDef) && STI(result, x) != nil && fresh(STI(result, x)) && (untyped(SSI(streamSetSelf)[x]) ==> len(*STI(result, x)) == 0) && (!untyped(SSI(streamSetSelf)[x]) ==> forall(j, 0, len(*STI(result, x)), CONTAINS(*STI(streamSetSelf, x), (*STI(result, x))[j]) && CONTAINS(*STI(input, x), (*STI(result, x))[j]))))
